@@ -66,6 +66,12 @@ fn c07_action_trace() {
             || trace_is(&[GET_HEADS, COLLAPSE, GET_LINEAR_PERSP, BEGIN, CALL_ACTION, WRITE, COMMIT_HEADS, COMMIT]));
         assert!(arg_at(first(COMMIT_HEADS)) == 1);
         assert!(arg_at(first(CALL_ACTION)) == 1); // ActionPlacement::OnGraph
+        // the one new head is the LAST command of the segment just written: its id, its segment, its (last) max cut
+        let st = &client.provider.storage;
+        match (st.written, st.committed_head) {
+            (Some((id, seg, mc)), Some(h)) => assert!(h.id == id && h.segment == seg && h.max_cut == mc),
+            _ => panic!("a successful action writes a segment and commits its head"),
+        }
         assert!(action_ok && !write_fails && !ch_fails);
         kani::cover!(true);
     } else {
